@@ -2170,6 +2170,17 @@ class ICModel:
             return same if isinstance(e.ops[0], (ast.Is, ast.Eq)) else not same
         return None
 
+    def is_yielded(self, name: str) -> bool:
+        """the outcome variable itself, or a local every definition of which is `= <outcome>` / `= _cancellableInlineCallbacks(<outcome>)`
+        (the yielded Deferred, or the Deferred of a yielded generator / coroutine)"""
+        res = self.p_result
+        if name == res:
+            return True
+        g = self.g
+        vals = [v for d in name_assign_nodes(g, name) for t, v in targets_values(g.node(d).ast) if is_name(t, name)]
+        return bool(vals) and all(v is not None and (is_name(v, res) or (isinstance(v, ast.Call) and is_name(v.func, "_cancellableInlineCallbacks")
+                                                                         and len(v.args) == 1 and is_name(v.args[0], res))) for v in vals)
+
     def is_cell_read(self, e) -> bool:
         return bool(self.W) and (sub0(e, self.W, 0) or (isinstance(e, ast.Name) and e.id in self.cell_aliases))
 
